@@ -42,7 +42,7 @@ S = Suite(
     bound="(1..3 towers) x (1..3 steps) incl. 1x1; strategies towers/time/both and the two "
           "serial drivers; workers 1..5; parent thread setting 1 and 4 (parent has solved with "
           "that setting before the fork); cache on/off with footprint, explicit/default halo, "
-          "pre-populated cache, repeated met conditions; hash-random per-task delays and the "
+          "pre-populated cache, repeated met conditions; dispersion mode with a configured source shape and an off-centre src_loc; hash-random per-task delays and the "
           "adversarial schedule (a worker per task, tasks complete in reverse submission "
           "order); 16x16 grid, nz=6, modes (16,16); "
           "quick 36 driver calls, thorough 330 (every shape x strategy x worker count x parent "
@@ -89,9 +89,14 @@ def build_config(n_towers, n_steps, use_cache, footprint, halo, repeat_met, seed
                 met[k] = met[k][0]
     if rng.random() < 0.5:
         met["timestamps"] = ["2024-07-01T%02d:00:00" % (6 + k) for k in range(n_steps)]
+    sol = dict(closure="MOST", footprint=bool(footprint), precision=rng.choice(["single", "double"]))
+    if not footprint:
+        # dispersion runs use the configured synthetic source: its shape and (off-centre) location are part of "the
+        # corresponding single run"
+        sol["surface_flux_shape"] = rng.choice(["diamond", "circle", "point"])
+        sol["src_loc"] = [round(dom["xmax"] * rng.uniform(0.15, 0.85), 2), round(dom["ymax"] * rng.uniform(0.15, 0.85), 2)]
     raw = dict(domain=dom, towers=towers, met=met,
-               solver=dict(closure="MOST", footprint=bool(footprint),
-                           precision=rng.choice(["single", "double"])),
+               solver=sol,
                parallel=dict(num_threads=1, max_workers=int(workers), use_cache=bool(use_cache)))
     return raw
 
